@@ -26,6 +26,8 @@ CONSTANTS Inputs,       \* raw input classes used (for every step and signal)
           MapInputs,    \* accepted raw input classes used, in addition, for the steps in MapSteps: "vd" (a
                         \* defaulted property omitted), "vl" (values accepted by lenient conversion)
           BehSet,       \* step handler behaviours used
+          MapBehs,      \* behaviours used, in addition, for the steps in MapSteps (their OUTPUT scopes are map-based
+                        \* too): "okr" (conforming data whose in-memory form differs from its serialized form)
           WithUnknown,  \* include unknown step / unknown signal calls
           Normal, KeepHist
 
@@ -41,11 +43,14 @@ B0 == CHOOSE b \in BehSet : TRUE
 B1 == IF "ok" \in BehSet THEN "ok" ELSE B0
 
 ASSUME MapInputs \subseteq ValidInputs
+ASSUME MapBehs \subseteq Behs
 
 StepCalls ==
     {MkCall("step", s, r, "none", i, B0) : s \in StepIds, r \in Runs, i \in Inputs \ ValidInputs}
     \cup {MkCall("step", s, r, "none", i, b) : s \in StepIds, r \in Runs, i \in Inputs \cap ValidInputs, b \in BehSet}
     \cup {MkCall("step", s, r, "none", i, B1) : s \in MapSteps \cap StepIds, r \in Runs, i \in MapInputs \ Inputs}
+    \cup {MkCall("step", s, r, "none", i, b) : s \in MapSteps \cap StepIds, r \in Runs, i \in Inputs \cap ValidInputs,
+                                                b \in MapBehs \ BehSet}
     \cup (IF WithUnknown THEN {MkCall("step", NoStep, R0, "none", V0, B0)} ELSE {})
 
 SignalCalls ==
